@@ -83,3 +83,36 @@
 ; a list of isomorphism instances applied in order, nil entries skipped
 (define-fun-rec mfwd_{FWD} ((l {L}) (s {S}) (t {T})) {T} (ite ((_ is nil_{L}) l) t (mfwd_{FWD} (tl_{L} l) s (ite (= (hd_{L} l) null) t ({FWD} (hd_{L} l) s t)))))
 (define-fun-rec minv_{INV} ((l {L}) (t {T}) (s {S})) {S} (ite ((_ is nil_{L}) l) s (minv_{INV} (tl_{L} l) t (ite (= (hd_{L} l) null) s ({INV} (hd_{L} l) t s)))))
+
+; @template TraceF
+; stage function instance f (pipe.F[A,B]): {APPLY}(f, a) is the value, {ERR}(f, a) the error
+; of applying it. tmapok: results of the elements that succeed; terrs: errors of those that
+; fail; both in input order (snoc recursion: one unfolding per received element)
+(define-fun-rec tmapok_{APPLY} ((f Ref) (l {TA})) {TB} (ite ((_ is emp_{TA}) l) emp_{TB} (ite (= ({ERR} f (last_{TA} l)) err_nil) (snoc_{TB} (tmapok_{APPLY} f (init_{TA} l)) ({APPLY} f (last_{TA} l))) (tmapok_{APPLY} f (init_{TA} l)))))
+(define-fun-rec terrs_{APPLY} ((f Ref) (l {TA})) {TE} (ite ((_ is emp_{TA}) l) emp_{TE} (ite (= ({ERR} f (last_{TA} l)) err_nil) (terrs_{APPLY} f (init_{TA} l)) (snoc_{TE} (terrs_{APPLY} f (init_{TA} l)) ({ERR} f (last_{TA} l))))))
+(define-fun-rec tallok_{APPLY} ((f Ref) (l {TA})) Bool (or ((_ is emp_{TA}) l) (and (= ({ERR} f (last_{TA} l)) err_nil) (tallok_{APPLY} f (init_{TA} l)))))
+
+; @template TraceKeep
+; predicate instance f (pipe.F[A,bool]): an element is kept iff f yields true without error
+(define-fun keep_{APPLY} ((f Ref) (a {A})) Bool (and ({APPLY} f a) (= ({ERR} f a) err_nil)))
+(define-fun-rec tfilter_{APPLY} ((f Ref) (l {TA})) {TA} (ite ((_ is emp_{TA}) l) emp_{TA} (ite (keep_{APPLY} f (last_{TA} l)) (snoc_{TA} (tfilter_{APPLY} f (init_{TA} l)) (last_{TA} l)) (tfilter_{APPLY} f (init_{TA} l)))))
+(define-fun-rec tfilternot_{APPLY} ((f Ref) (l {TA})) {TA} (ite ((_ is emp_{TA}) l) emp_{TA} (ite (keep_{APPLY} f (last_{TA} l)) (tfilternot_{APPLY} f (init_{TA} l)) (snoc_{TA} (tfilternot_{APPLY} f (init_{TA} l)) (last_{TA} l)))))
+(define-fun-rec tallkeep_{APPLY} ((f Ref) (l {TA})) Bool (or ((_ is emp_{TA}) l) (and (keep_{APPLY} f (last_{TA} l)) (tallkeep_{APPLY} f (init_{TA} l)))))
+
+; @template TraceIter
+; fpow(f, s, n) = f^n(s); titer(f, s, n) = [s, f s, ..., f^(n-1) s]
+(define-fun-rec fpow_{APPLY} ((f Ref) (s {A}) (n Int)) {A} (ite (<= n 0) s ({APPLY} f (fpow_{APPLY} f s (- n 1)))))
+(define-fun-rec titer_{APPLY} ((f Ref) (s {A}) (n Int)) {TA} (ite (<= n 0) emp_{TA} (snoc_{TA} (titer_{APPLY} f s (- n 1)) (fpow_{APPLY} f s (- n 1)))))
+
+; @template Upto
+; tupto(n) = [0, 1, ..., n-1]
+(define-fun-rec tupto_{T} ((n Int)) {T} (ite (<= n 0) emp_{T} (snoc_{T} (tupto_{T} (- n 1)) (- n 1))))
+
+; @template TraceToList
+(define-fun-rec tolist_{T} ((l {T})) {L} (ite ((_ is emp_{T}) l) nil_{L} (snocl_{L} (tolist_{T} (init_{T} l)) (last_{T} l))))
+
+; @template TraceFF
+; arrow instance f (pipe.FF[A,B]): {EMITS}(f, a) is the trace it sends for a, {FAILS}(f, a) its error
+(define-fun-rec tflat_{EMITS} ((f Ref) (l {TA})) {TB} (ite ((_ is emp_{TA}) l) emp_{TB} (tcat_{TB} (tflat_{EMITS} f (init_{TA} l)) ({EMITS} f (last_{TA} l)))))
+(define-fun-rec tferrs_{EMITS} ((f Ref) (l {TA})) {TE} (ite ((_ is emp_{TA}) l) emp_{TE} (ite (= ({FAILS} f (last_{TA} l)) err_nil) (tferrs_{EMITS} f (init_{TA} l)) (snoc_{TE} (tferrs_{EMITS} f (init_{TA} l)) ({FAILS} f (last_{TA} l))))))
+(define-fun-rec tfallok_{EMITS} ((f Ref) (l {TA})) Bool (or ((_ is emp_{TA}) l) (and (= ({FAILS} f (last_{TA} l)) err_nil) (tfallok_{EMITS} f (init_{TA} l)))))
